@@ -97,28 +97,62 @@ Definition tagged (a : acct) : Prop :=
 (* (0) durability: nothing the process works with is missing from the committed tables - a restart loses nothing *)
 Definition durable (a : acct) : Prop := a_dids a = a_ids a /\ a_dsess a = a_sess a.
 
+(* (0') every durable state the store has passed through since a - the ghost log grows by one entry per commit -
+   keeps the keys remembered in a (auto-trust off): whatever write boundary the process is killed at, no pin is lost *)
+Definition dstate := (list (N * N) * list (N * list sstate))%type.
+
+Definition goodd (a : acct) (d : dstate) : Prop :=
+  a_auto a = false -> durable a -> forall c k, lookup c (a_ids a) = Some k -> lookup c (fst d) = Some k.
+
+Definition logged (a a' : acct) : Prop := exists new, a_log a' = new ++ a_log a /\ Forall (goodd a) new.
+
 Definition G (a a' : acct) : Prop :=
-  (a_auto a' = a_auto a /\ (durable a -> durable a')) /\
+  ((a_auto a' = a_auto a /\ logged a a') /\ (durable a -> durable a')) /\
   (a_auto a = false -> durable a -> pins_kept a a' /\ (tagged a -> tagged a')).
 
+Lemma logged_refl a : logged a a.
+Proof. exists []. split; [reflexivity | constructor]. Qed.
+
+Lemma logged_same a a' : a_log a' = a_log a -> logged a a'.
+Proof. intros H. exists []. split; [exact H | constructor]. Qed.
+
+Lemma logged_trans a b c :
+  a_auto b = a_auto a -> (durable a -> durable b) -> (a_auto a = false -> durable a -> pins_kept a b) ->
+  logged a b -> logged b c -> logged a c.
+Proof.
+  intros HA HD HP [n1 [E1 F1]] [n2 [E2 F2]]. exists (n2 ++ n1). split; [rewrite E2, E1; apply app_assoc|].
+  apply Forall_app. split; [|exact F1].
+  eapply Forall_impl; [|exact F2]. intros d Hg Hf Hd x k H.
+  apply Hg; [congruence | auto | apply (HP Hf Hd), H].
+Qed.
+
+Lemma logged_auto a a' : a_auto a = true -> (exists new, a_log a' = new ++ a_log a) -> logged a a'.
+Proof.
+  intros Ht [new E]. exists new. split; [exact E|]. apply Forall_forall. intros d _ Hf. congruence.
+Qed.
+
 Lemma G_refl a : G a a.
-Proof. split; auto. intros _ _. split; [intros c k H; exact H | auto]. Qed.
+Proof. split; [split; [split; [reflexivity | apply logged_refl] | auto]|]. intros _ _. split; [intros c k H; exact H | auto]. Qed.
 
 Lemma G_trans a b c : G a b -> G b c -> G a c.
 Proof.
-  intros [[A1 D1] B1] [[A2 D2] B2]. split; [split; [congruence | auto]|]. intros Hf Hd.
-  destruct (B1 Hf Hd) as [P1 T1]. assert (Hb : a_auto b = false) by congruence.
-  destruct (B2 Hb (D1 Hd)) as [P2 T2]. split; [intros x k H; apply P2, P1, H | auto].
+  intros [[[A1 L1] D1] B1] [[[A2 L2] D2] B2]. split; [split; [split; [congruence|] | auto]|].
+  - eapply logged_trans; eauto. intros Hf Hd. apply (B1 Hf Hd).
+  - intros Hf Hd.
+    destruct (B1 Hf Hd) as [P1 T1]. assert (Hb : a_auto b = false) by congruence.
+    destruct (B2 Hb (D1 Hd)) as [P2 T2]. split; [intros x k H; apply P2, P1, H | auto].
 Qed.
 
 Lemma durable_commit a : durable (commit a).
 Proof. split; reflexivity. Qed.
 
-(* G only looks at the flag, the two working tables and durability *)
+(* G only looks at the flag, the two working tables, durability and the log *)
 Lemma G_view a b b' :
-  G a b -> a_auto b' = a_auto b -> a_ids b' = a_ids b -> a_sess b' = a_sess b -> (durable a -> durable b') -> G a b'.
+  G a b -> a_auto b' = a_auto b -> a_ids b' = a_ids b -> a_sess b' = a_sess b -> (durable a -> durable b') ->
+  logged a b' -> G a b'.
 Proof.
-  intros [[A D] B] HA HI HS HD. split; [split; [congruence | exact HD]|]. intros Hf Hd. destruct (B Hf Hd) as [P T]. split.
+  intros [[[A L] D] B] HA HI HS HD HL. split; [split; [split; [congruence | exact HL] | exact HD]|].
+  intros Hf Hd. destruct (B Hf Hd) as [P T]. split.
   - intros c k H. rewrite HI. apply P, H.
   - intros Ta c r s H1 H2. rewrite HI. rewrite HS in H1. eapply T; eauto.
 Qed.
@@ -126,10 +160,11 @@ Qed.
 (* a change that touches no table *)
 Lemma G_same a a' :
   a_auto a' = a_auto a -> a_ids a' = a_ids a -> a_sess a' = a_sess a ->
-  a_dids a' = a_dids a -> a_dsess a' = a_dsess a -> G a a'.
+  a_dids a' = a_dids a -> a_dsess a' = a_dsess a -> a_log a' = a_log a -> G a a'.
 Proof.
-  intros HA HI HS HDI HDS. apply (G_view a a a' (G_refl a)); auto.
-  intros [D1 D2]. split; congruence.
+  intros HA HI HS HDI HDS HL. apply (G_view a a a' (G_refl a)); auto.
+  - intros [D1 D2]. split; congruence.
+  - apply logged_same, HL.
 Qed.
 
 Lemma trusted_save_kept ids c k :
@@ -137,6 +172,39 @@ Lemma trusted_save_kept ids c k :
 Proof.
   intros Ht c0 k0 H. unfold save_identity. rewrite lookup_upd. destruct (c =? c0) eqn:E; auto.
   apply N.eqb_eq in E. subst c0. unfold trusted in Ht. rewrite H in Ht. apply N.eqb_eq in Ht. congruence.
+Qed.
+
+Lemma goodd_same_ids a (d : dstate) : fst d = a_ids a -> goodd a d.
+Proof. intros E _ _ c k H. rewrite E. exact H. Qed.
+
+Lemma logged_store_session a c r : logged a (store_session a c r).
+Proof.
+  exists [(a_ids a, upd c r (a_sess a))]. split; [reflexivity|]. constructor; [|constructor].
+  apply goodd_same_ids. reflexivity.
+Qed.
+
+Lemma logged_store_identity a c k : trusted (a_ids a) c k = true -> logged a (store_identity a c k).
+Proof.
+  intros Ht. exists [(save_identity (a_ids a) c k, a_sess a)]. split; [reflexivity|]. constructor; [|constructor].
+  intros _ _ c0 k0 H. cbn [fst]. apply trusted_save_kept; auto.
+Qed.
+
+(* session stored, then identity saved (bundle) / identity saved, then session stored (first message): two commits *)
+Lemma logged_session_identity a c r k :
+  trusted (a_ids a) c k = true -> logged a (store_identity (store_session a c r) c k).
+Proof.
+  intros Ht. exists [(save_identity (a_ids a) c k, upd c r (a_sess a)); (a_ids a, upd c r (a_sess a))].
+  split; [reflexivity|]. constructor; [|constructor; [|constructor]].
+  - intros _ _ c0 k0 H. cbn [fst]. apply trusted_save_kept; auto.
+  - apply goodd_same_ids. reflexivity.
+Qed.
+
+Lemma logged_identity_session a c r k :
+  trusted (a_ids a) c k = true -> logged a (store_session (store_identity a c k) c r).
+Proof.
+  intros Ht. exists [(save_identity (a_ids a) c k, upd c r (a_sess a)); (save_identity (a_ids a) c k, a_sess a)].
+  split; [reflexivity|]. constructor; [|constructor; [|constructor]];
+    intros _ _ c0 k0 H; cbn [fst]; apply trusted_save_kept; auto.
 Qed.
 
 Lemma record_of_in a c s : In s (record_of a c) -> exists r, lookup c (a_sess a) = Some r /\ In s r.
@@ -149,7 +217,8 @@ Lemma G_install a c k r :
   (forall s, In s r -> s_ident s = k \/ exists s0, In s0 (record_of a c) /\ s_ident s0 = s_ident s) ->
   G a (store_identity (store_session a c r) c k).
 Proof.
-  intros Ht Hr. split; [split; [reflexivity | intros _; apply durable_commit]|]. intros _ _. split.
+  intros Ht Hr. split; [split; [split; [reflexivity | apply logged_session_identity, Ht] | intros _; apply durable_commit]|].
+  intros _ _. split.
   - intros c0 k0 H. autorewrite with acct. apply trusted_save_kept; auto.
   - intros T c0 r0 s H1 H2. autorewrite with acct in *. unfold save_identity. rewrite lookup_upd.
     rewrite lookup_upd in H1. destruct (c =? c0) eqn:E.
@@ -165,7 +234,8 @@ Lemma G_shuffle a c r :
   (forall s, In s r -> exists s0, In s0 (record_of a c) /\ s_ident s0 = s_ident s) ->
   G a (store_session a c r).
 Proof.
-  intros Hr. split; [split; [reflexivity | intros _; apply durable_commit]|]. intros _ _. split.
+  intros Hr. split; [split; [split; [reflexivity | apply logged_store_session] | intros _; apply durable_commit]|].
+  intros _ _. split.
   - intros c0 k0 H. exact H.
   - intros T c0 r0 s H1 H2. autorewrite with acct in *. rewrite lookup_upd in H1.
     destruct (c =? c0) eqn:E.
@@ -222,12 +292,13 @@ Proof.
     destruct (decrypt_record r1 (e_sid e) (e_n e) (e_corrupt e) (e_payload e)) as [[r'|] res] eqn:D;
       cbn [fst].
     + apply (G_view a (store_identity (store_session a c r') c (e_ident e))); try reflexivity;
-        [|intros _; apply durable_commit].
+        [|intros _; apply durable_commit | apply logged_identity_session, Ht].
       apply (G_install a c (e_ident e) r'); auto.
       intros s Hs. destruct (decrypt_record_states _ _ _ _ _ _ _ D s Hs) as [s0 [I0 E0]].
       destruct (Hr1 s0 I0) as [Hk | Hin]; [left; congruence | right; exists s0; auto].
     + (* identity saved, record not stored *)
-      split; [split; [reflexivity | intros _; apply durable_commit]|]. intros _ _. split.
+      split; [split; [split; [reflexivity | apply logged_store_identity, Ht] | intros _; apply durable_commit]|].
+      intros _ _. split.
       * intros c0 k0 H. autorewrite with acct. apply trusted_save_kept; auto.
       * intros T c0 r0 s H1 H2. autorewrite with acct in *. unfold save_identity. rewrite lookup_upd.
         destruct (c =? c0) eqn:E; [|eapply T; eauto].
@@ -247,8 +318,11 @@ Definition outs_ok (a' : acct) (os : list output) : Prop :=
 Definition S (a : acct) (r : acct * list output) : Prop :=
   G a (fst r) /\ (a_auto a = false -> durable a -> tagged a -> outs_ok (fst r) (snd r)).
 
-Lemma G_auto_true a a' : a_auto a = true -> a_auto a' = true -> (durable a -> durable a') -> G a a'.
-Proof. intros H1 H2 HD. split; [split; [congruence | exact HD]|]. intros H. congruence. Qed.
+Lemma G_auto_true a a' :
+  a_auto a = true -> a_auto a' = true -> (durable a -> durable a') -> (exists new, a_log a' = new ++ a_log a) -> G a a'.
+Proof.
+  intros H1 H2 HD HL. split; [split; [split; [congruence | apply logged_auto; auto] | exact HD]|]. intros H. congruence.
+Qed.
 
 Lemma outs_ok_nil a : outs_ok a []. Proof. intros c m k sid n ident []. Qed.
 
@@ -259,9 +333,9 @@ Proof. intros HG Hn. split; [exact HG|]. intros _ _ _ c m k sid n ident H. exfal
 Lemma S_seq a a1 o1 a2 o2 : S a (a1, o1) -> S a1 (a2, o2) -> S a (a2, o1 ++ o2).
 Proof.
   intros [G1 O1] [G2 O2]. cbn [fst snd] in *. split; [eapply G_trans; eauto|].
-  intros Hf Hd T. cbn [fst snd]. destruct G1 as [[A1 D1] B1]. destruct (B1 Hf Hd) as [P1 T1].
+  intros Hf Hd T. cbn [fst snd]. destruct G1 as [[[A1 L1] D1] B1]. destruct (B1 Hf Hd) as [P1 T1].
   assert (Hf1 : a_auto a1 = false) by congruence.
-  destruct G2 as [[A2 D2] B2]. destruct (B2 Hf1 (D1 Hd)) as [P2 T2].
+  destruct G2 as [[[A2 L2] D2] B2]. destruct (B2 Hf1 (D1 Hd)) as [P2 T2].
   intros c m k sid n ident Hin. apply in_app_or in Hin. destruct Hin as [Hin | Hin].
   - apply P2. eapply O1; eauto.
   - eapply (O2 Hf1 (D1 Hd) (T1 T)); eauto.
@@ -270,7 +344,7 @@ Qed.
 Lemma S_G a a1 r : G a a1 -> S a1 r -> S a r.
 Proof.
   intros G1 [G2 O2]. split; [eapply G_trans; eauto|]. intros Hf Hd T.
-  destruct G1 as [[A1 D1] B1]. destruct (B1 Hf Hd) as [P1 T1]. apply O2; [congruence | auto | auto].
+  destruct G1 as [[[A1 L1] D1] B1]. destruct (B1 Hf Hd) as [P1 T1]. apply O2; [congruence | auto | auto].
 Qed.
 
 Lemma S_then_G a a1 os a2 : S a (a1, os) -> G a1 a2 -> S a (a2, os).
@@ -322,7 +396,7 @@ Proof.
 Qed.
 
 Lemma auto_decrypt a c e : a_auto (fst (decrypt a c e)) = a_auto a.
-Proof. destruct (G_decrypt a c e) as [[H _] _]. exact H. Qed.
+Proof. destruct (G_decrypt a c e) as [[[H _] _] _]. exact H. Qed.
 
 Lemma S_handle_enc a c m e : S a (handle_enc a c m e).
 Proof.
@@ -330,7 +404,8 @@ Proof.
   destruct (decrypt a c e) as [a1 res] eqn:D. cbn [fst] in HG, HA.
   destruct res; try apply S_handle_enc1.
   destruct (a_auto a) eqn:Hauto.
-  - eapply S_G; [|apply S_handle_enc1]. apply G_auto_true; [exact Hauto | autorewrite with acct; congruence | intros _; apply durable_commit].
+  - eapply S_G; [|apply S_handle_enc1]. apply G_auto_true; [exact Hauto | autorewrite with acct; congruence | intros _; apply durable_commit|].
+    destruct HG as [[[_ [n [E _]]] _] _]. eexists (_ :: n). unfold store_identity, commit, set_ids. cbn [a_log a_ids a_sess]. rewrite E. reflexivity.
   - apply S_noout; [exact HG | no_omsg].
 Qed.
 
@@ -349,7 +424,7 @@ Proof.
   - eapply G_process_bundle; eauto.
   - destruct (a_auto a) eqn:Hauto; cbn [fst]; [|apply G_refl].
     apply G_auto_true; [exact Hauto | unfold build_session; autorewrite with acct; exact Hauto
-                        | intros _; apply durable_commit].
+                        | intros _; apply durable_commit | eexists (_ :: _ :: _ :: nil); reflexivity].
 Qed.
 
 Lemma S_keys_result a k res : S a (keys_result a k res).
@@ -381,14 +456,15 @@ Qed.
 
 Lemma G_restart a : G a (restart a).
 Proof.
-  split; [split; [reflexivity | intros _; split; reflexivity]|]. intros _ [DI DS]. split.
+  split; [split; [split; [reflexivity | apply logged_same; reflexivity] | intros _; split; reflexivity]|].
+  intros _ [DI DS]. split.
   - intros c k H. cbn [restart a_ids]. rewrite DI. exact H.
   - intros T c r s H1 H2. cbn [restart a_ids a_sess] in *. rewrite DI. rewrite DS in H1. eapply T; eauto.
 Qed.
 
-Lemma S_step a i : i <> IWipe -> S a (step a i).
+Lemma S_step_nk a i : i <> IWipe -> S a (step_nk a i).
 Proof.
-  intros Hw. destruct i; cbn [step].
+  intros Hw. destruct i; cbn [step_nk].
   - apply S_app_send.
   - destruct (lookup iq (a_iqs a)) as [k|].
     + eapply S_G; [|apply S_keys_result]. apply G_same; reflexivity.
@@ -398,16 +474,26 @@ Proof.
   - apply S_noout; [apply G_restart | no_omsg].
   - congruence.
   - unfold on_notify, get_keys. apply S_noout; [apply G_same; reflexivity | no_omsg].
+  - apply S_noout; [apply G_refl | no_omsg].
 Qed.
 
-Definition no_wipe (ins : list input) : Prop := Forall (fun i => i <> IWipe) ins.
+Definition is_kill (i : input) : bool := match i with IKill _ _ => true | _ => false end.
 
-Lemma run_G ins : forall a, no_wipe ins -> G a (fst (run a ins)).
+Lemma step_not_kill a i : is_kill i = false -> step a i = step_nk a i.
+Proof. destruct i; cbn [is_kill step]; intros H; try reflexivity. discriminate. Qed.
+
+Lemma S_step a i : i <> IWipe -> is_kill i = false -> S a (step a i).
+Proof. intros Hw Hk. rewrite step_not_kill; auto. apply S_step_nk, Hw. Qed.
+
+Definition no_wipe (ins : list input) : Prop := Forall (fun i => i <> IWipe) ins.
+Definition no_kill (ins : list input) : Prop := Forall (fun i => is_kill i = false) ins.
+
+Lemma run_G ins : forall a, no_wipe ins -> no_kill ins -> G a (fst (run a ins)).
 Proof.
-  induction ins as [|i r IH]; intros a Hw; cbn [run]; [apply G_refl|].
-  inversion Hw as [|? ? Hi Hr]; subst.
-  pose proof (S_step a i Hi) as [HG _]. destruct (step a i) as [a1 o]. cbn [fst] in HG.
-  specialize (IH a1 Hr). destruct (run a1 r) as [a2 os]. cbn [fst] in *. eapply G_trans; eauto.
+  induction ins as [|i r IH]; intros a Hw Hk; cbn [run]; [apply G_refl|].
+  inversion Hw as [|? ? Hi Hr]; subst. inversion Hk as [|? ? Hki Hkr]; subst.
+  pose proof (S_step a i Hi Hki) as [HG _]. destruct (step a i) as [a1 o]. cbn [fst] in HG.
+  specialize (IH a1 Hr Hkr). destruct (run a1 r) as [a2 os]. cbn [fst] in *. eapply G_trans; eauto.
 Qed.
 
 Lemma tagged_init auto : tagged (init auto).
@@ -416,12 +502,80 @@ Proof. intros c r s H. cbn in H. discriminate. Qed.
 Lemma durable_init auto : durable (init auto).
 Proof. split; reflexivity. Qed.
 
-(* durability is kept by EVERY input, the account's own reinstall included *)
+(* =====================================================================================================
+   Kills.  P = G without the session-tagging part: what holds across a kill at ANY write boundary of ANY input. *)
+Definition P (a a' : acct) : Prop :=
+  a_auto a' = a_auto a /\ (durable a -> durable a') /\ (a_auto a = false -> durable a -> pins_kept a a').
+
+Lemma G_P a a' : G a a' -> P a a'.
+Proof. intros [[[A _] D] B]. split; [exact A|]. split; [exact D|]. intros Hf Hd. apply (B Hf Hd). Qed.
+
+Lemma P_refl a : P a a.
+Proof. split; [reflexivity|]. split; [auto|]. intros _ _ c k H. exact H. Qed.
+
+Lemma P_trans a b c : P a b -> P b c -> P a c.
+Proof.
+  intros [A1 [D1 B1]] [A2 [D2 B2]]. split; [congruence|]. split; [auto|]. intros Hf Hd x k H.
+  apply B2; [congruence | auto | apply (B1 Hf Hd), H].
+Qed.
+
+Lemma last_in {A} (l : list A) d : l <> [] -> In (last l d) l.
+Proof.
+  induction l as [|x l IH]; [congruence|]. intros _. destruct l as [|y l]; [left; reflexivity|].
+  right. apply IH. discriminate.
+Qed.
+
+Lemma nth_or_last_in {A} n (l : list A) d : l <> [] -> In (nth n l (last l d)) l.
+Proof.
+  intros Hl. destruct (nth_in_or_default n l (last l d)) as [H | H]; [exact H|]. rewrite H. apply last_in, Hl.
+Qed.
+
+(* every durable state the store passes through while a (non-kill) input is handled keeps the remembered keys *)
+Lemma durable_states_good a k : durable a -> Forall (goodd a) (durable_states a k).
+Proof.
+  intros [DI DS]. unfold durable_states. constructor.
+  - apply goodd_same_ids. cbn [fst]. exact DI.
+  - assert (Hw : kin_input k <> IWipe) by (destruct k; discriminate).
+    destruct (S_step_nk (set_log a []) (kin_input k) Hw) as [[[[_ [new [E F]]] _] _] _].
+    cbn [set_log a_log] in E. rewrite app_nil_r in E. rewrite E.
+    apply Forall_rev. eapply Forall_impl; [|exact F]. intros d Hg. exact Hg.
+Qed.
+
+Lemma kill_image_in a k n : In (nth (N.to_nat n) (durable_states a k) (last (durable_states a k) (a_dids a, a_dsess a)))
+                               (durable_states a k).
+Proof. apply nth_or_last_in. unfold durable_states. discriminate. Qed.
+
+Lemma P_kill a k n : P a (kill_image a k n).
+Proof.
+  unfold kill_image. cbv zeta.
+  set (d := nth (N.to_nat n) (durable_states a k) (last (durable_states a k) (a_dids a, a_dsess a))).
+  split; [reflexivity|]. split; [intros _; split; reflexivity|].
+  intros Hf Hd c key H. cbn [reborn a_ids].
+  pose proof (durable_states_good a k Hd) as F. rewrite Forall_forall in F.
+  apply (F d (kill_image_in a k n) Hf Hd), H.
+Qed.
+
+Lemma P_step a i : i <> IWipe -> P a (fst (step a i)).
+Proof.
+  intros Hw. destruct (is_kill i) eqn:K.
+  - destruct i; try discriminate. cbn [step fst]. apply P_kill.
+  - apply G_P. apply (S_step a i Hw K).
+Qed.
+
+Lemma run_P ins : forall a, no_wipe ins -> P a (fst (run a ins)).
+Proof.
+  induction ins as [|i r IH]; intros a Hw; cbn [run]; [apply P_refl|].
+  inversion Hw as [|? ? Hi Hr]; subst.
+  pose proof (P_step a i Hi) as HP. destruct (step a i) as [a1 o]. cbn [fst] in HP.
+  specialize (IH a1 Hr). destruct (run a1 r) as [a2 os]. cbn [fst] in *. eapply P_trans; eauto.
+Qed.
+
+(* durability is kept by EVERY input: the account's own reinstall and kills included *)
 Lemma durable_step a i : durable a -> durable (fst (step a i)).
 Proof.
   intros Hd. assert (Hi : i = IWipe \/ i <> IWipe) by (destruct i; (left; reflexivity) || (right; discriminate)).
   destruct Hi as [-> | Hi]; [split; reflexivity|].
-  destruct (S_step a i Hi) as [[[_ D] _] _]. auto.
+  destruct (P_step a i Hi) as [_ [D _]]. auto.
 Qed.
 
 Lemma durable_run ins : forall a, durable a -> durable (fst (run a ins)).
@@ -440,30 +594,32 @@ Proof.
 Qed.
 
 (* ---------- the theorems ---------- *)
-(* 1. once pinned, the stored key of c never changes (auto-trust off) *)
+(* 1. once pinned, the stored key of c never changes (auto-trust off) - ins may contain restarts AND kills at any write
+   boundary of any input *)
 Theorem pin_immutable_thm : forall a ins c k,
   a_auto a = false -> durable a -> no_wipe ins ->
   lookup c (a_ids a) = Some k -> lookup c (a_ids (fst (run a ins))) = Some k.
 Proof.
-  intros a ins c k Hf Hd Hw H. destruct (run_G ins a Hw) as [_ B]. destruct (B Hf Hd) as [P _]. apply P, H.
+  intros a ins c k Hf Hd Hw H. destruct (run_P ins a Hw) as [_ [_ B]]. apply (B Hf Hd), H.
 Qed.
 
 (* 2. every ciphertext produced for c is under a session state built for the pinned identity *)
 Theorem no_encrypt_to_stranger_thm : forall auto pre i c m k sid n ident,
-  auto = false -> no_wipe pre ->
+  auto = false -> no_wipe pre -> no_kill pre ->
   let a1 := fst (run (init auto) pre) in
   In (OMsg c m k sid n ident) (snd (step a1 i)) ->
   lookup c (a_ids (fst (step a1 i))) = Some ident.
 Proof.
-  intros auto pre i c m k sid n ident Hf Hw a1 Hin.
-  destruct (run_G pre (init auto) Hw) as [[A D] B]. fold a1 in A, B, D.
+  intros auto pre i c m k sid n ident Hf Hw Hnk a1 Hin.
+  destruct (run_G pre (init auto) Hw Hnk) as [[[A _] D] B]. fold a1 in A, B, D.
   assert (Hf0 : a_auto (init auto) = false) by (subst; reflexivity).
   destruct (B Hf0 (durable_init auto)) as [_ T]. specialize (T (tagged_init auto)).
   specialize (D (durable_init auto)).
   assert (Hf1 : a_auto a1 = false) by congruence.
   assert (Hi : i = IWipe \/ i <> IWipe) by (destruct i; (left; reflexivity) || (right; discriminate)).
   destruct Hi as [-> | Hi]; [cbn in Hin; contradiction|].
-  destruct (S_step a1 i Hi) as [_ O]. eapply O; eauto.
+  destruct (is_kill i) eqn:K; [destruct i; try discriminate; cbn [step snd] in Hin; contradiction|].
+  destruct (S_step a1 i Hi K) as [_ O]. eapply O; eauto.
 Qed.
 
 (* 3a. a bundle presenting a different identity: per-jid error, nothing sent, nothing changed *)
@@ -475,7 +631,7 @@ Theorem refused_bundle_thm : forall a iq res c m k k' sid,
   a_sess (fst (step a (IKeys iq res))) = a_sess a /\
   a_sentq (fst (step a (IKeys iq res))) = a_sentq a.
 Proof.
-  intros a iq res c m k k' sid Hf Hq Hp Hr Hne. cbn [step]. rewrite Hq.
+  intros a iq res c m k k' sid Hf Hq Hp Hr Hne. cbn [step step_nk]. rewrite Hq.
   unfold keys_result. cbn [cont_contact]. rewrite Hr. unfold create_session, process_bundle. autorewrite with acct.
   unfold trusted. rewrite Hp. destruct (k =? k') eqn:E; [apply N.eqb_eq in E; congruence|].
   rewrite Hf. cbn [fst snd]. auto.
@@ -488,7 +644,7 @@ Theorem refused_retry_bundle_thm : forall a iq res c m t k k' sid,
   a_ids (fst (step a (IKeys iq res))) = a_ids a /\
   a_sess (fst (step a (IKeys iq res))) = a_sess a.
 Proof.
-  intros a iq res c m t k k' sid Hf Hq Hp Hr Hne. cbn [step]. rewrite Hq.
+  intros a iq res c m t k k' sid Hf Hq Hp Hr Hne. cbn [step step_nk]. rewrite Hq.
   unfold keys_result. cbn [cont_contact]. rewrite Hr. unfold create_session, process_bundle. autorewrite with acct.
   unfold trusted. rewrite Hp. destruct (k =? k') eqn:E; [apply N.eqb_eq in E; congruence|].
   rewrite Hf. cbn [fst snd]. auto.
@@ -499,7 +655,7 @@ Theorem refused_first_message_thm : forall a c m e k,
   a_auto a = false -> lookup c (a_ids a) = Some k -> e_kind e = EPk -> e_ident e <> k ->
   step a (IMsg c m e) = (a, []).
 Proof.
-  intros a c m e k Hf Hp Hk Hne. cbn [step]. unfold handle_enc, decrypt. rewrite Hk.
+  intros a c m e k Hf Hp Hk Hne. cbn [step step_nk]. unfold handle_enc, decrypt. rewrite Hk.
   unfold trusted. rewrite Hp. destruct (k =? e_ident e) eqn:E; [apply N.eqb_eq in E; congruence|].
   rewrite Hf. reflexivity.
 Qed.
@@ -516,7 +672,7 @@ Theorem autotrust_bundle_replaces_thm : forall a iq res c m k' sid,
   lookup c (a_ids (fst (step a (IKeys iq res)))) = Some k' /\
   snd (step a (IKeys iq res)) = [OMsg c m EPk sid 0 k'].
 Proof.
-  intros a iq res c m k' sid Ht Hq Hr. cbn [step]. rewrite Hq. unfold keys_result. cbn [cont_contact]. rewrite Hr.
+  intros a iq res c m k' sid Ht Hq Hr. cbn [step step_nk]. rewrite Hq. unfold keys_result. cbn [cont_contact]. rewrite Hr.
   set (a0 := set_iqs a (remove_key iq (a_iqs a)) (a_iqctr a)).
   assert (Hcs : exists b, fst (create_session a0 c k' sid) = build_session b c k' sid /\
                           snd (create_session a0 c k' sid) = true).
@@ -536,7 +692,7 @@ Theorem autotrust_first_message_thm : forall a c m e,
   snd (step a (IMsg c m e)) = [ODeliver c m (e_payload e); OReceipt c m] /\
   lookup c (a_ids (fst (step a (IMsg c m e)))) = Some (e_ident e).
 Proof.
-  intros a c m e Ht Hk Hpk Hc Hfs. cbn [step].
+  intros a c m e Ht Hk Hpk Hc Hfs. cbn [step step_nk].
   assert (Core : forall b, record_of b c = record_of a c -> trusted (a_ids b) c (e_ident e) = true ->
             snd (handle_enc1 b c m e) = [ODeliver c m (e_payload e); OReceipt c m] /\
             lookup c (a_ids (fst (handle_enc1 b c m e))) = Some (e_ident e)).
@@ -565,7 +721,7 @@ Theorem autotrust_resumes_thm : forall a iq res c m k' sid,
   lookup c (a_ids a) = Some k' ->
   snd (step a (IKeys iq res)) = [OMsg c m EPk sid 0 k'].
 Proof.
-  intros a iq res c m k' sid Hq Hr Hp. cbn [step]. rewrite Hq. unfold keys_result. cbn [cont_contact]. rewrite Hr.
+  intros a iq res c m k' sid Hq Hr Hp. cbn [step step_nk]. rewrite Hq. unfold keys_result. cbn [cont_contact]. rewrite Hr.
   unfold create_session, process_bundle, build_session. autorewrite with acct. unfold trusted. rewrite Hp, N.eqb_refl.
   unfold plaintext_send, session_exists, send_to_contact, encrypt.
   autorewrite with acct. rewrite !record_of_store_session_same.
@@ -580,7 +736,7 @@ Theorem notify_fetches_keys_thm : forall a c m,
   lookup (a_iqctr a) (a_iqs (fst (step a (INotify c m)))) = Some (KNotify c) /\
   a_ids (fst (step a (INotify c m))) = a_ids a /\ a_sess (fst (step a (INotify c m))) = a_sess a.
 Proof.
-  intros a c m. cbn [step]. unfold on_notify, get_keys. cbn [fst snd]. autorewrite with acct.
+  intros a c m. cbn [step step_nk]. unfold on_notify, get_keys. cbn [fst snd]. autorewrite with acct.
   repeat split. cbn [set_iqs a_iqs lookup]. rewrite N.eqb_refl. reflexivity.
 Qed.
 
@@ -591,7 +747,7 @@ Theorem notify_bundle_pins_thm : forall a iq res c k sid,
   lookup c (a_ids a') = Some k /\ lookup c (a_dids a') = Some k /\
   record_of a' c = new_state sid k true :: record_of a c /\ durable a'.
 Proof.
-  intros a iq res c k sid Hq Hr Ht. cbn [step]. rewrite Hq. unfold keys_result. cbn [cont_contact]. rewrite Hr.
+  intros a iq res c k sid Hq Hr Ht. cbn [step step_nk]. rewrite Hq. unfold keys_result. cbn [cont_contact]. rewrite Hr.
   unfold create_session, process_bundle. autorewrite with acct. rewrite Ht. cbn [fst snd].
   split; [reflexivity|]. unfold build_session.
   split; [autorewrite with acct; unfold save_identity; apply lookup_upd_same|].
@@ -605,7 +761,7 @@ Theorem refused_notify_bundle_thm : forall a iq res c k k' sid,
   lookup c (a_ids a) = Some k -> lookup c res = Some (k', sid) -> k' <> k ->
   step a (IKeys iq res) = (set_iqs a (remove_key iq (a_iqs a)) (a_iqctr a), []).
 Proof.
-  intros a iq res c k k' sid Hf Hq Hp Hr Hne. cbn [step]. rewrite Hq.
+  intros a iq res c k k' sid Hf Hq Hp Hr Hne. cbn [step step_nk]. rewrite Hq.
   unfold keys_result. cbn [cont_contact]. rewrite Hr. unfold create_session, process_bundle. autorewrite with acct.
   unfold trusted. rewrite Hp. destruct (k =? k') eqn:E; [apply N.eqb_eq in E; congruence|].
   rewrite Hf. reflexivity.
@@ -625,7 +781,7 @@ Theorem survives_restart_thm : forall auto ins,
   a_auto (fst (step a IRestart)) = a_auto a.
 Proof.
   intros auto ins a. destruct (reachable_durable_thm auto ins) as [DI DS]. fold a in DI, DS.
-  cbn [step fst restart a_ids a_sess a_auto]. auto.
+  cbn [step step_nk fst restart a_ids a_sess a_auto]. auto.
 Qed.
 
 Theorem remembered_survives_restart_thm : forall auto ins c k,
@@ -633,15 +789,15 @@ Theorem remembered_survives_restart_thm : forall auto ins c k,
   lookup c (a_ids a) = Some k -> lookup c (a_ids (fst (run (init auto) (ins ++ [IRestart])))) = Some k.
 Proof.
   intros auto ins c k a H. rewrite run_app. fold a. cbn [run fst].
-  destruct (survives_restart_thm auto ins) as [E _]. fold a in E. cbn [step fst] in E.
-  cbn [step fst]. rewrite E. exact H.
+  destruct (survives_restart_thm auto ins) as [E _]. fold a in E. cbn [step step_nk fst] in E.
+  cbn [step step_nk fst]. rewrite E. exact H.
 Qed.
 
 (* 5c. the same stated on one state: a restart of a durable state changes neither table nor the flag *)
 Theorem restart_of_durable_thm : forall a, durable a ->
   a_ids (fst (step a IRestart)) = a_ids a /\ a_sess (fst (step a IRestart)) = a_sess a /\
   a_auto (fst (step a IRestart)) = a_auto a /\ durable (fst (step a IRestart)).
-Proof. intros a [DI DS]. cbn [step fst restart a_ids a_sess a_auto]. repeat split; auto. Qed.
+Proof. intros a [DI DS]. cbn [step step_nk fst restart a_ids a_sess a_auto]. repeat split; auto. Qed.
 
 Theorem pin_enforced_after_restart_thm : forall a ins1 ins2 c k,
   a_auto a = false -> durable a -> no_wipe ins1 -> no_wipe ins2 ->
@@ -657,12 +813,12 @@ Proof.
   intros a ins1 ins2 c k Hf Hd H1 H2 Hp a'.
   assert (Hw : no_wipe (IRestart :: ins2)) by (constructor; [discriminate | exact H2]).
   assert (Ha1 : a_auto (fst (run a ins1)) = false).
-  { destruct (run_G ins1 a H1) as [[A _] _]. congruence. }
+  { destruct (run_P ins1 a H1) as [A _]. congruence. }
   assert (Hd1 : durable (fst (run a ins1))) by (apply durable_run; exact Hd).
   assert (Hk : lookup c (a_ids a') = Some k).
   { unfold a'. rewrite run_app. apply pin_immutable_thm; auto. }
   assert (Ha' : a_auto a' = false).
-  { unfold a'. rewrite run_app. destruct (run_G (IRestart :: ins2) (fst (run a ins1)) Hw) as [[A _] _]. congruence. }
+  { unfold a'. rewrite run_app. destruct (run_P (IRestart :: ins2) (fst (run a ins1)) Hw) as [A _]. congruence. }
   split; [exact Hk|]. split; [exact Ha'|]. split; [|split].
   - intros m e He Hne. eapply refused_first_message_thm; eauto.
   - intros iq res m k' sid Hq Hr Hne. eapply refused_bundle_thm; eauto.
@@ -700,7 +856,7 @@ Example create_session_unrepaired_refuted :
     session_exists (fst (create_session_unrepaired a c k sid)) c = false /\
     session_exists (fst (create_session a c k sid)) c = true.
 Proof.
-  exists (mkA true [(7, 1)] [] [(7, 1)] [] [] [] [] [] [] 0), 7, 2, 51. vm_compute. repeat split; reflexivity.
+  exists (mkA true [(7, 1)] [] [(7, 1)] [] [] [] [] [] [] 0 []), 7, 2, 51. vm_compute. repeat split; reflexivity.
 Qed.
 
 (* with auto-trust ON the invariant of theorem 2 does not hold (archived states keep the old identity); it is
@@ -708,7 +864,7 @@ Qed.
 Example autotrust_keeps_old_states_witness :
   exists a, a_auto a = true /\ tagged a /\ ~ tagged (fst (create_session a 7 2 51)).
 Proof.
-  exists (mkA true [(7, 1)] [(7, [mkS 50 1 false 0 []])] [(7, 1)] [(7, [mkS 50 1 false 0 []])] [] [] [] [] [] 0). split; [reflexivity|]. split.
+  exists (mkA true [(7, 1)] [(7, [mkS 50 1 false 0 []])] [(7, 1)] [(7, [mkS 50 1 false 0 []])] [] [] [] [] [] 0 []). split; [reflexivity|]. split.
   - intros c r s H Hin. cbn [a_sess lookup] in H. destruct (7 =? c) eqn:E; [|discriminate]. apply N.eqb_eq in E. subst c.
     apply Some_inj in H. subst r. destruct Hin as [<- | []]. reflexivity.
   - intros T. specialize (T 7 _ (mkS 50 1 false 0 []) eq_refl (or_intror (or_introl eq_refl))).
@@ -826,4 +982,114 @@ Example save_identity_exclusive_refuted :
     lookup c0 (save_identity ids c k) = Some k /\ trusted (save_identity ids c k) c0 k' = false.
 Proof.
   exists [(7, 1)], 8, 7, 1, 2. vm_compute. repeat split; try reflexivity; discriminate.
+Qed.
+
+(* =====================================================================================================
+   Kills at a write boundary (seeded defect C17-6: a connection in autocommit mode makes saveIdentity's DELETE
+   durable on its own). *)
+(* saveIdentity takes the store through exactly ONE new durable state - the one with the new row.  Its DELETE and
+   INSERT share a transaction: there is no durable state in which the contact has no row *)
+Theorem store_identity_two_states_thm : forall a c k,
+  a_log (store_identity a c k) = (save_identity (a_ids a) c k, a_sess a) :: a_log a /\
+  lookup c (save_identity (a_ids a) c k) = Some k /\
+  (forall c0, c <> c0 -> lookup c0 (save_identity (a_ids a) c k) = lookup c0 (a_ids a)).
+Proof.
+  intros a c k. split; [reflexivity|]. split; [unfold save_identity; apply lookup_upd_same|].
+  intros c0 H. apply save_identity_other, H.
+Qed.
+
+(* every durable state the store passes through while ANY store-writing input is handled - the states a kill at a
+   write boundary can leave behind - still holds every remembered key (auto-trust off) *)
+Theorem kill_states_keep_pins_thm : forall a k c key d,
+  a_auto a = false -> durable a -> lookup c (a_ids a) = Some key ->
+  In d (durable_states a k) -> lookup c (fst d) = Some key.
+Proof.
+  intros a k c key d Hf Hd H Hin. pose proof (durable_states_good a k Hd) as F. rewrite Forall_forall in F.
+  apply (F d Hin Hf Hd), H.
+Qed.
+
+(* for every history - restarts and kills at any write boundary of any input, in any number and order - a remembered
+   key is still the remembered key, the state is durable, and the pin is enforced: first message, bundle fetched for
+   a send, bundle fetched after a notification presenting another identity are refused *)
+Theorem pin_survives_kill_thm : forall a ins c key,
+  a_auto a = false -> durable a -> no_wipe ins ->
+  lookup c (a_ids a) = Some key ->
+  let a' := fst (run a ins) in
+  lookup c (a_ids a') = Some key /\ a_auto a' = false /\ durable a' /\
+  (forall m e, e_kind e = EPk -> e_ident e <> key -> step a' (IMsg c m e) = (a', [])) /\
+  (forall iq res m k' sid, lookup iq (a_iqs a') = Some (KSend c m) -> lookup c res = Some (k', sid) -> k' <> key ->
+     snd (step a' (IKeys iq res)) = [OErr c]) /\
+  (forall iq res k' sid, lookup iq (a_iqs a') = Some (KNotify c) -> lookup c res = Some (k', sid) -> k' <> key ->
+     step a' (IKeys iq res) = (set_iqs a' (remove_key iq (a_iqs a')) (a_iqctr a'), [])).
+Proof.
+  intros a ins c key Hf Hd Hw H a'.
+  assert (Hk : lookup c (a_ids a') = Some key) by (apply pin_immutable_thm; auto).
+  assert (Ha' : a_auto a' = false) by (destruct (run_P ins a Hw) as [A _]; unfold a'; congruence).
+  split; [exact Hk|]. split; [exact Ha'|]. split; [apply durable_run, Hd|]. split; [|split].
+  - intros m e He Hne. eapply refused_first_message_thm; eauto.
+  - intros iq res m k' sid Hq Hr Hne. eapply refused_bundle_thm; eauto.
+  - intros iq res k' sid Hq Hr Hne. eapply refused_notify_bundle_thm; eauto.
+Qed.
+
+(* one kill, stated on its own *)
+Theorem kill_keeps_pin_thm : forall a k n c key,
+  a_auto a = false -> durable a -> lookup c (a_ids a) = Some key ->
+  lookup c (a_ids (fst (step a (IKill k n)))) = Some key /\ durable (fst (step a (IKill k n))) /\
+  a_auto (fst (step a (IKill k n))) = false.
+Proof.
+  intros a k n c key Hf Hd H. cbn [step fst]. destruct (P_kill a k n) as [A [D B]].
+  split; [apply (B Hf Hd), H|]. split; [auto | congruence].
+Qed.
+
+(* non-vacuity, computed: contact 7 pinned with key 1 and talking to us; a notification makes us fetch its bundle
+   again (same key 1, base key 51) and the process is KILLED after the session store's commit, before saveIdentity's:
+   the new process finds key 1 and the refreshed session; message 4 goes out under it; 7 reinstalls (key 2): retry
+   bundle refused, first message ignored *)
+Definition history_kill : list input :=
+  [ IAppSend 7 1; IKeys 0 [(7, (1, 50))]; IMsg 7 2 (mkE EMsg 50 0 0 true false 2);
+    INotify 7 3; IKill (KiKeys 1 [(7, (1, 51))]) 1;
+    IAppSend 7 4; IReceipt 7 4 true; IKeys 2 [(7, (2, 52))];
+    IMsg 7 5 (mkE EPk 60 0 2 true false 5) ].
+
+Example kill_history_no_autotrust :
+  snd (run (init false) history_kill) =
+  [ [OGetKeys 0 7]; [OMsg 7 1 EPk 50 0 1]; [ODeliver 7 2 2; OReceipt 7 2];
+    [ONotifAck 7 3; OGetKeys 1 7]; [];
+    [OMsg 7 4 EPk 51 0 1]; [OGetKeys 2 7]; [OErr 7];
+    [] ]
+  /\ lookup 7 (a_ids (fst (run (init false) history_kill))) = Some 1
+  /\ map (fun d => lookup 7 (fst d))
+         (durable_states (fst (run (init false) (firstn 4 history_kill))) (KiKeys 1 [(7, (1, 51))]))
+     = [Some 1; Some 1; Some 1].
+Proof. vm_compute. repeat split; reflexivity. Qed.
+
+(* the variant in which saveIdentity's DELETE and INSERT are two transactions (seeded defect C17-6): the store passes
+   through a state without a row for the contact; a process reborn from it trusts any identity for the contact -
+   whereas every durable state of the code as it is keeps key k *)
+Example save_identity_nonatomic_refuted :
+  exists a c k k' sid,
+    a_auto a = false /\ durable a /\ lookup c (a_ids a) = Some k /\ k' <> k /\
+    let d := nth 1 (save_identity_nonatomic_states a c k) (a_dids a, a_dsess a) in
+    lookup c (fst d) = None /\
+    let b := reborn a d in
+    let b1 := fst (step b (INotify c 9)) in
+    lookup c (a_ids (fst (step b1 (IKeys (a_iqctr b) [(c, (k', sid))])))) = Some k' /\
+    Forall (fun d => lookup c (fst d) = Some k) (durable_states a (KiKeys 1 [(c, (k, sid))])) /\
+    length (durable_states a (KiKeys 1 [(c, (k, sid))])) = 3%nat.
+Proof.
+  exists (fst (run (init false) [INotify 7 1; IKeys 0 [(7, (1, 50))]; INotify 7 2])), 7, 1, 2, 51.
+  vm_compute. repeat split; try reflexivity; try discriminate. repeat constructor.
+Qed.
+
+(* what the kill theorems do NOT claim.  python-axolotl's processPreKeyBundle stores the session first and saves the
+   identity last, in two transactions: a kill between them AT FIRST CONTACT leaves a session for an identity that is
+   not remembered; the next message is encrypted under it with no key stored for the contact.  Hence
+   no_encrypt_to_stranger is stated for kill-free histories (the pin theorems hold with kills) *)
+Example no_encrypt_to_stranger_with_kill_refuted :
+  exists pre i c m k sid n ident,
+    no_wipe pre /\ In (OMsg c m k sid n ident) (snd (step (fst (run (init false) pre)) i)) /\
+    lookup c (a_ids (fst (step (fst (run (init false) pre)) i))) = None.
+Proof.
+  exists [IAppSend 7 1; IKill (KiKeys 0 [(7, (1, 50))]) 1], (IAppSend 7 2), 7, 2, EPk, 50, 0, 1.
+  split; [repeat constructor; discriminate|]. vm_compute. split; [left; reflexivity | reflexivity].
 Qed.
